@@ -212,7 +212,7 @@ def qmat_py(q):
     return rot_from_quat(np.asarray(q, dtype=float))
 
 
-def consistent_views(v, scale):
+def consistent_views(v, scale, stamps=None):
     """the property itself, on the implementation's four views"""
     n = v["n"]
     if len(set(n)) != 1:
@@ -225,7 +225,7 @@ def consistent_views(v, scale):
             return "position %d differs from the translation of pose matrix %d" % (k, k)
         if abs(np.linalg.norm(quat[k]) - 1) > 1e-6:
             return "quaternion %d is not a unit quaternion" % k
-        if not np.allclose(qmat_py(quat[k]), poses[k][:3, :3], atol=1e-6):
+        if not np.allclose(qmat_py(quat[k]), poses[k][:3, :3], rtol=0, atol=1e-6):
             return "quaternion %d describes a different rotation than pose matrix %d" % (k, k)
         if list(poses[k][3]) != [0, 0, 0, 1]:
             return "bottom row of pose %d" % k
@@ -239,6 +239,12 @@ def consistent_views(v, scale):
         return "accumulated distances do not follow from the positions"
     if not close(unhex(v["path_length"]), exp[-1], rtol=1e-9, atol=1e-9 * scale):
         return "path length does not follow from the positions"
+    if "speeds" in v and stamps is not None and len(stamps) == len(pos):
+        sp = [unhex(x) for x in v["speeds"]]
+        want = [float(np.linalg.norm(b - a)) / (t1 - t0) for a, b, t0, t1 in zip(pos, pos[1:], stamps, stamps[1:])]
+        # (evaluated on the object's own positions view: the same expression, so only rounding of one norm and one division)
+        if len(sp) != len(want) or any(not close(a, b, rtol=1e-9, atol=1e-300) for a, b in zip(sp, want)):
+            return "speeds do not follow from the positions and timestamps (|p_(i+1) - p_i| / (t_(i+1) - t_i))"
     return None
 
 
@@ -258,7 +264,7 @@ def judge(case, val, out):
             return None
         if "views_error" in snap:
             return _sv("views cannot be read after %s: %s" % (s["op"], snap["views_error"]), step=si)
-        c = consistent_views(snap["views"], scale)
+        c = consistent_views(snap["views"], scale, [unhex(x) for x in snap["stamps"]] if snap.get("stamps") else None)
         if c is not None:
             return _sv("after step %d (%s): %s" % (si, s["op"], c), step=si)
         idx += len(s["mops"])
@@ -290,7 +296,7 @@ def judge(case, val, out):
         if mposes is not None:
             a = np.array([[float(x) for x in v] for v in mposes]).reshape(-1, 12)
             b = np.array([np.concatenate([U(p, (4, 4))[:3, :3].reshape(9), U(p, (4, 4))[:3, 3]]) for p in snap["poses"]]).reshape(-1, 12)
-            if a.shape != b.shape or not np.allclose(a[:, :9], b[:, :9], atol=1e-8) or not np.allclose(a[:, 9:], b[:, 9:], **tol):
+            if a.shape != b.shape or not np.allclose(a[:, :9], b[:, :9], rtol=0, atol=1e-8) or not np.allclose(a[:, 9:], b[:, 9:], **tol):
                 return _sv("pose matrices after step %d (%s) differ from the documented effect (proven for the model)" % (si, s["op"]), step=si)
         if mquat is not None:
             a = np.array([[float(x) for x in v] for v in mquat]).reshape(-1, 4)
@@ -298,9 +304,9 @@ def judge(case, val, out):
             if a.shape != b.shape:
                 return _mv("quaternion count differs after step %d" % si)
             for qa, qb in zip(a, b):
-                if not (np.allclose(qa, qb, atol=1e-6) or np.allclose(qa, -qb, atol=1e-6)):
+                if not (np.allclose(qa, qb, rtol=0, atol=1e-6) or np.allclose(qa, -qb, rtol=0, atol=1e-6)):
                     # both describe the same rotation? (near-pi rotations: the eigen-solver may pick another axis sign)
-                    if not np.allclose(qmat_py(qa), qmat_py(qb), atol=1e-6):
+                    if not np.allclose(qmat_py(qa), qmat_py(qb), rtol=0, atol=1e-6):
                         return _sv("quaternions after step %d (%s) differ from the documented effect (proven for the model)" % (si, s["op"]), step=si)
     return None
 
@@ -327,7 +333,8 @@ def make_op(rng, name, n, scale, stamps, nmax=None, stamped=True):
             big = (nmax if nmax is not None else n)
             if prop and big > 16:
                 prop = False
-            t[:3, :3] *= float(rng.choice([0.5, 2.0] if prop else [0.5, 2.0, 10.0]))
+            # (1 +- 8e-6: a similarity that evo's tolerant SE(3) membership test cannot tell from a rigid motion by its determinant)
+            t[:3, :3] *= float(rng.choice([0.5, 2.0] if prop else [0.5, 2.0, 10.0, 1.000008, 0.999992]))
         return {"op": "transform", "t": H(t), "right": "right" in name or "prop" in name, "propagate": prop}
     if name == "scale":
         return {"op": "scale", "s": hexf(float(rng.choice([0.5, 2.0, 1.0, 1e-2, 30.0])))}
@@ -407,6 +414,22 @@ def gen(ctx):
     rng.shuffle(seqs)
     for k, seq in enumerate(seqs[:ctx.n(200, 2800)]):
         cases.append(build_case(rng, list(seq) + ["rd_derived"], int(rng.integers(3, 7)), bool(k % 2), bool((k // 2) % 2)))
+    for k in range(ctx.n(6, 24)):
+        # a far-away first pose / a huge jump followed by millimetre steps: the accumulated distance is many orders of
+        # magnitude larger than the steps whose speed is asked for
+        c = build_case(rng, ["rd_derived", ["transform_left", "copy", "scale"][k % 3], "rd_derived"], 8, bool(k % 2), True)
+        jump = float([1e9, 3e9, 1e10][k % 3])
+        key = "poses" if c["init"]["kind"] == "poses" else "pos"
+        for j in range(8):
+            step = np.array([0.001 * j, 0.002 * j, 0.0]) + (np.array([jump, 0.0, 0.0]) if j >= 1 else 0.0)
+            if key == "poses":
+                P = U(c["init"]["poses"][j], (4, 4))
+                P[:3, 3] = step
+                c["init"]["poses"][j] = H(P)
+            else:
+                c["init"]["pos"][j] = H(step)
+        c["scale"] = jump
+        cases.append(c)
     for k in range(ctx.n(120, 500)):
         L = int(rng.integers(4, 16))
         names = [str(rng.choice(ALPHABET)) for _ in range(L)]
